@@ -59,6 +59,20 @@ def check_messages(errors, files, allow_synthetic=False):
                 continue
             loc = m.location
             if loc.is_synthetic and not allow_synthetic:
+                # which source text the compiler disowns: its own synthesized expressions have no text of their own
+                # (they reuse positions of the operands they were built from), whereas `$next` is something the user
+                # wrote and a message about it must point at it
+                at = ""
+                text = files.get(m.source_file)
+                if text is not None:
+                    ls = text.splitlines()
+                    if 1 <= loc.start.line <= len(ls) and loc.start.line == loc.end.line:
+                        at = ls[loc.start.line - 1][loc.start.column - 1:loc.end.column - 1]
+                if at == "$next":
+                    out.append(("synthetic-location-on-user-written-$next:" + _template(m.message),
+                                "message %r about the user's `$next` at %s carries the internal 'compiler bug' location" % (
+                                    m.message[:80], loc)))
+                    continue
                 out.append(("synthetic-location:" + _template(m.message), "user-visible message carries the internal 'compiler bug' location: %r" % (m.message,)))
                 continue
             text = files.get(m.source_file)
@@ -183,6 +197,19 @@ def gen_case(rng, corpus):
     if r < 0.26:
         text, _ = syngen.program(rng)
         return "syngen", {main: text}, main
+    if r < 0.275:
+        # locations at the edges of 64 bits: starts, sizes and `$next` whose sum only overflows when put together
+        big = [2 ** 63 - 1, 2 ** 63, 2 ** 64 - 2, 2 ** 64 - 1, 2 ** 64, 0xffff_ffff_ffff_fffe, 2 ** 62, 2 ** 32, 255, 8, 1]
+        L = ['[$default byte_order: "LittleEndian"]', "struct Edge:", "  0 [+8]  UInt  n"]
+        for j in range(rng.randint(1, 4)):
+            start = rng.choice(["n", "n", str(rng.choice(big)), "$next", "$next", "n + %d" % rng.choice(big), "0"])
+            size = rng.choice([str(rng.choice(big)), "n", "1", "8", "n * %d" % rng.choice([1, 2, 255, 2 ** 32])])
+            ty = rng.choice(["UInt:8[]", "UInt:8[]", "UInt", "Int", "UInt:64[]"])
+            L.append("  %s [+%s]  %s  f%d" % (start, size, ty, j))
+        L.append("  %s [+%s]  UInt  last" % (rng.choice(["$next", "$next", "n"]), rng.choice(["1", "8"])))
+        if rng.random() < 0.3:
+            L.append("  let v = $size_in_bytes + %d" % rng.choice(big))
+        return "edge_locations", {main: "\n".join(L) + "\n"}, main
     name, text = corpus[rng.randrange(len(corpus))]
     if r < 0.30:
         lines = text.split("\n")
